@@ -48,6 +48,24 @@ Definition take_up : M (list evt) :=
 
 Fixpoint iterM {A} (f:A -> M unit) (l:list A) : M unit :=
   match l with [] => ret tt | x :: t => f x ;; iterM f t end.
+(* ---- chain combinators: the shape shared by the engines' transition chains ---- *)
+(* recursive form (back / back11 chain_row::execute_helper): run the first item; if its code lets the chain
+   continue, run the rest and merge the two codes *)
+Fixpoint chain_gen {A} (ex:A -> M nat) (cont:nat -> bool) (merge:nat -> nat -> nat) (l:list A) : M nat :=
+  match l with
+  | [] => ret 0
+  | x :: rest =>
+      bind (ex x) (fun res =>
+        if cont res then bind (chain_gen ex cont merge rest) (fun sub => ret (merge res sub)) else ret res)
+  end.
+(* loop form with an accumulator (favor_compile_time's chain_row::operator(), backmp11's transition_chain):
+   while the accumulated code lets the loop continue, run the next item and fold its code in *)
+Fixpoint loop_gen {A} (ex:A -> M nat) (cont:nat -> bool) (step:nat -> nat -> nat) (acc:nat) (l:list A) : M nat :=
+  match l with
+  | [] => ret acc
+  | x :: rest => if cont acc then bind (ex x) (fun h => loop_gen ex cont step (step acc h) rest) else ret acc
+  end.
+
 Definition when (b:bool) (m:M unit) : M unit := if b then m else ret tt.
 
 (* bits of small result / source codes *)
